@@ -196,6 +196,18 @@ theorem C15_assembled_processors (given : Option (List Item)) (cfgLimit : Option
               simpa [List.any_append, Item.isTrim] using ht
             simp [assemble, augmentLimit, augmentTrim, hl, this, Item.isLimit, Item.isTrim]
 
+/-- T9: on the command line the user's `--pp-max-emptylines N` is the limit that is enforced, for every `N` — `0`
+included — whatever the language configuration says; without the option the configured limit (if any) applies; and
+there is never more than one limiter. -/
+theorem C15_cli_limit_is_the_users (trim : Bool) (maxEmpty : Option Nat) (prog : Bool)
+    (cfgLimit : Option Nat) (cfgTrim : Bool) :
+    firstLimit (cliProcessors trim maxEmpty prog cfgLimit cfgTrim) =
+      (match maxEmpty with | some n => some n | none => cfgLimit) ∧
+    ((cliProcessors trim maxEmpty prog cfgLimit cfgTrim).filter Item.isLimit).length ≤ 1 := by
+  cases trim <;> cases maxEmpty <;> cases prog <;> cases cfgLimit <;> cases cfgTrim <;>
+    simp [cliProcessors, cliList, assemble, augmentLimit, augmentTrim, firstLimit, Item.isLimit, Item.isTrim,
+      List.filter_cons]
+
 /-! ### The defect repaired by the `fix:` commit (kept as a regression witness)
 
 Before the fix the generator loop had no carry for a `\r` that ends a chunk: the chunking
